@@ -46,7 +46,7 @@ def _single(draw):
     return {'kind': 'single', 'autocast': autocast, 'bystander': bystander, 'spec': draw(gens.model_spec(max_layers=3, max_dim=7, max_out=6)),
             'method': 'eigen', 'prediv': False, 'in_hook': draw(st.booleans()), 'accum': accum, 'N': draw(st.integers(1, 5)),
             'style': draw(gens.style_strategy()), 'param_dtype': pd,
-            'factor_dtype': draw(st.sampled_from([None, None, 'float32', 'float64', 'bfloat16'])),
+            'factor_dtype': draw(st.sampled_from([None, None, 'float32', 'float64', 'bfloat16', 'float16'])),
             'loss_scale': draw(st.sampled_from([None, None, 128.0, 1024.0, 0.5, {'table': [1024.0, 512.0, 2048.0]}, {'table': [8.0, 8.0, 0.25, 64.0]}])),
             'hp': {'factor_update_steps': draw(gens.table_or_const([1, 1, 2, 3])), 'inv_update_steps': draw(st.sampled_from([1, 2, 3])),
                    'damping': 0.1, 'factor_decay': draw(_decay()), 'kl_clip': 1e-2, 'lr': 0.1},
@@ -82,7 +82,7 @@ class C04(Prop):
     rule = ('Hypothesis draws (kind "single") histories of 1-8 train/eval iterations on a model of 1-3 layers (linear incl. N-d inputs, conv2d), '
             'accumulation 1-3 with unequal micro-batch sizes, factor update in hook or in step, factor_update_steps constant or table, decay '
             'constant / table / exponential-averaging schedule, loss scale via a grad_scaler callable, parameter dtype float32/float64, factor '
-            'dtype None/float32/float64/bfloat16, forward passes optionally inside torch.autocast(bfloat16) (the documented mixed-precision use); and (kind "multi") the same on W in {2,3,4} simulated ranks with every divisor as worker '
+            'dtype None/float32/float64/bfloat16/float16, forward passes optionally inside torch.autocast(bfloat16) (the documented mixed-precision use); and (kind "multi") the same on W in {2,3,4} simulated ranks with every divisor as worker '
             'count, bucketed or not, symmetric or not, drawn schedule. Oracle: the factor recurrence of vkit/refkfac fed with layer inputs and '
             'output gradients recorded by the harness on a twin model without K-FAC, compared with state_dict() factors after every step on '
             'every rank (relative Frobenius tolerance 16 (updates+1) max(1, sqrt(rows)) eps(factor dtype)); exact symmetry; PSD; dtype == '
